@@ -130,7 +130,8 @@ pub fn run(cases_path: &str, out_path: &str, tier: &str, seed: u64) {
             let cdata: Vec<u8> = subst(&canon);
             for &(ki, hi) in &combos {
                 let k = &keys[ki];
-                let h = hashes[hi];
+                // (the library refuses digests shorter than the curve: P-384 and larger keys get the wide hashes)
+                let h = if k.name.contains("p384") || k.name.contains("p521") || k.name.contains("448") { [HashAlgorithm::Sha384, HashAlgorithm::Sha512, HashAlgorithm::Sha3_512][hi % 3] } else { hashes[hi] };
                 let cj = json!({"ci": ci, "t": t.join(""), "variant": variant, "key": k.name, "hash": format!("{h:?}")});
                 let put = |iface: &str, r: Out<()>, fkey: &str| {
                     sink.put(rec("c06.iface", { let mut x = cj.clone(); x["sign_iface"] = json!(iface); x }, r.is_ok(), fkey, json!({"outcome": r.class(), "detail": r.detail()})));
